@@ -263,7 +263,15 @@ bool Uci::go_command(std::istringstream& istream)
     Limits limits;
     std::string token;
 
-    while (istream >> token)
+    // long algebraic move: e2e4, e7e8q
+    auto is_move = [](const std::string& t) {
+        return (t.size() == 4 || t.size() == 5) && 'a' <= t[0] && t[0] <= 'h' &&
+               '1' <= t[1] && t[1] <= '8' && 'a' <= t[2] && t[2] <= 'h' &&
+               '1' <= t[3] && t[3] <= '8';
+    };
+
+    bool have_token = static_cast<bool>(istream >> token);
+    while (have_token)
     {
         if (token == "ponder")
             limits.ponder = true;
@@ -289,10 +297,14 @@ bool Uci::go_command(std::istringstream& istream)
             limits.infinite = true;
         else if (token == "searchmoves")
         {
-            while (istream >> token)
+            // the list ends at the next keyword, which is handled above
+            while ((have_token = static_cast<bool>(istream >> token)) &&
+                   is_move(token))
                 limits.searchmoves[limits.searchmovesnum++] =
                     position.parse_uci(token);
+            continue;
         }
+        have_token = static_cast<bool>(istream >> token);
     }
 
     search = std::make_shared<Search>(position, limits, scorer, ttable);
